@@ -42,7 +42,7 @@ type sizes struct {
 
 func tierSizes(c *vf.Ctx) sizes {
 	if c.Thorough() {
-		return sizes{cond: 300000, arith: 200000, source: 40000, sort: 20000, stmt: 100000, opts: 50000, plan: 30000, chunk: 50000}
+		return sizes{cond: 240000, arith: 160000, source: 30000, sort: 10000, stmt: 60000, opts: 40000, plan: 25000, chunk: 40000}
 	}
 	return sizes{cond: 12000, arith: 8000, source: 2000, sort: 1000, stmt: 4000, opts: 2000, plan: 1500, chunk: 2000}
 }
@@ -57,12 +57,18 @@ func main() {
 		worker(c, vf.WorkerArg())
 		c.Finish()
 	}
-	c.SetRule("a case is a text generated from the InfluxQL grammar (or an option/plan/chunk object built from one) that a real parser accepted; " +
-		"it is non-trivial and distinct when its tree has >= 2 operator/call/paren nodes (expressions), or it is a source / sort list / SELECT statement / " +
-		"options object / plan / chunk with distinct content (key = text or generator stream). Comparison: exported fields only (cached depth ignored); " +
-		"ParenExpr wrappers are transparent only when that alone explains a difference (reported as equal-modulo-paren-wrappers-only); " +
-		"ProcessorOptions.FillValue is compared as a number and only when Fill is NumberFill; nil and empty slices/maps are equal; " +
-		"chunk columns are compared through the exported Column accessors over their logical length")
+	c.SetRule("a case is a text generated from the InfluxQL grammar (or an options / schema / plan / join / chunk object built from one) that a real parser accepted; " +
+		"it is non-trivial and distinct when its tree has >= 2 operator/call/paren nodes (expressions; key = text), or it is a source, sort list, SELECT statement, " +
+		"options object, plan or chunk (key = text or generator index). Oracle: canonical form over EXPORTED fields (cached depth ignored, floats by bit pattern, regexes by source, " +
+		"nil == empty slice/map). Equivalences applied, each counted as equal-modulo-<name> and never silently: (1) ParenExpr wrappers are transparent when that alone explains a difference " +
+		"(grouping is explicit in the tree shape that is compared); (2) TimeLiteral == StringLiteral of its RFC3339Nano text (the language has no other spelling of a time; only Reduce/ConditionExpr make TimeLiteral nodes; " +
+		"ValuerEval yields 'no match' against the integer `time` for both); (3) ProcessorOptions.FillValue is compared as a number and only when Fill is NumberFill; " +
+		"(4) only fields that have a slot in the wire message are compared for ProcessorOptions/Measurement (the rest is node-local by construction of the codec); " +
+		"(5) yacc-built vs hand-parsed SELECT statements are compared on the fields that have a spelling in the text (the two parsers fill derived flags differently); " +
+		"(6) chunks are compared through the exported Chunk/Column accessors row by row. " +
+		"A failed round trip is reported under '<site>:<reason>' where the reason is verified constructively: the same tree does round-trip once exactly that " +
+		"(parentheses around weaker-binding operands / a fraction on integral numbers / no CR,NUL in strings / no fill() or alias in shipped sub-queries) is repaired, and the tree has what the repair addresses; " +
+		"one violation per necessary repair. Statements and sources (parts stmt/source/join) use a plain expression profile so that their clause structure is the subject; expressions are attacked in parts cond/arith/opts/plan")
 	c.Assume("the store side parses shipped text with influxql.ParseExpr / ParseSource / ParseSortFields / hybridqp.ParseFields and decodes options, plans and chunks with the Unmarshal functions exercised here (read from processor_codec.go, logic_plan_codec.go, rpc_message.go)")
 	c.Assume("the sql node parses queries with the yacc parser exactly as httpd.Handler.getSqlQuery does, and the planner's condition is influxql.ConditionExpr(stmt.Condition) / fields are influxql.Reduce(field) (query/compile.go)")
 	c.Assume("texts rejected by a parser are outside the property's quantifier and only counted")
@@ -260,10 +266,13 @@ func replay(c *vf.Ctx) {
 		c.Broken("witness of unknown kind %q (worker-fatal witnesses carry last_input; replay that by hand)", kind.Kind)
 		return
 	}
-	if c.Violations() == 0 {
-		fmt.Println("REPLAY: the witness no longer violates")
-	} else {
+	switch {
+	case c.Violations() > 0:
 		fmt.Println("REPLAY: the witness still violates")
+	case r.known > 0:
+		fmt.Println("REPLAY: the witness reproduces a recorded known finding (no new violation)")
+	default:
+		fmt.Println("REPLAY: the witness no longer violates")
 	}
 }
 
